@@ -907,10 +907,10 @@ pub fn c10(ctx: &CheckCtx) -> i32 {
          unwinds. Non-trivial: text the GraphQL parser accepts (so the frontend proper ran); distinct by text hash.",
     );
     report.assume("query nesting depth is bounded (<= 6 levels) so the third-party parser's native recursion cannot overflow the stack");
-    let cases = ctx.cases(300_000, 3_000_000);
+    let cases = ctx.cases(800_000, 8_000_000);
     let res = search(ctx, "c10", cases, 32, 600, c10_case);
     report.absorb(res, &render_hostile);
-    let cases = ctx.cases(100_000, 1_000_000);
+    let cases = ctx.cases(300_000, 3_000_000);
     let res = search(ctx, "c10-bytes", cases, 0, 200, c10_bytes_case);
     report.absorb(res, &|b| json!({"text": bytes_to_text(b)}));
     report.finish()
